@@ -26,6 +26,11 @@ def run(rep, tier, seed):
                                                 MaxSaves=len(pop), MaxQueries=1, Population=pop), cap=30000)
             chk.run_config('resave', consts(Cats=['A', 'AB'], Metas=METAS_SMALL[:2], FilterNames=['none', 'skipinc'], Limits=[0, 1, 2],
                                             Randoms=[False], Ops=['list', 'default', 'resave'], MaxSaves=2, MaxQueries=2), cap=20000)
+            # lookup, re-save with other metadata (the incomplete flag changes, a key appears), lookup again; a save that
+            # fails inside the cassette in between
+            chk.run_config('relook', consts(Cats=['A'], Metas=[METAS_SMALL[1], METAS_SMALL[3], METAS_SMALL[4]],
+                                            FilterNames=['k1a', 'skipinc'], Limits=[0], Randoms=[False],
+                                            Ops=['list', 'resave', 'failsave'], MaxSaves=1, MaxQueries=3), cap=20000)
             rep.exhaustive = bool(ex)
         else:
             ex = chk.run_config('hist', consts(Cats=['A', 'AB', 'A_B'], Metas=METAS_SMALL, FilterNames=ALL_FILTERS,
